@@ -39,7 +39,8 @@ def fixed_inputs(tr, env):
     given = {}
     it = Interp()
     for n, av, l in zip(tr.in_names, tr.in_avals, leaves):
-        if "space" in n:
+        # Box bounds and ClipReward's min/max are captured by the wrappers' closures at construction: static configuration
+        if "space" in n or n.endswith("_min") or n.endswith("_max"):
             given[n] = it.lift(np.asarray(l), av.dtype)
     return given
 
